@@ -448,7 +448,7 @@ def to_terms(cases, obs):
 def run(ctx):
     os.makedirs(ctx.scratch.dir, exist_ok=True)
     rng = ctx.rng
-    n = ctx.budget(50, 450)
+    n = ctx.budget(50, 300)
     cases = [{k: c[k] for k in ("kind", "mode", "worker", "re", "a")} for c in ctx.corpus() if "kind" in c]
     # every (kind, mode) once under the debug worker with raise_errors, then random
     for kind, modes in KINDS.items():
